@@ -23,6 +23,41 @@ CLAIMED = {
         design_ref='DESIGN.md 4 C05'),
 }
 
+CLAIMED.update({
+    'C01': dict(
+        engine='schedex',
+        technique='stateless model checking of the real threads: exhaustive delay-bounded schedule enumeration x all completion orders of the futures',
+        text='Real fifo_stream / Stream.parmap code under a controlled scheduler. An environment thread resolves the '
+             'pending futures in every order (free choice points, enumerated completely) while every schedule of feeder, '
+             'consumer and pool workers with at most d deviations is explored (d=1 quick, d=2 thorough). Each execution is '
+             'compared with a list-comprehension reference: values, exception objects, (x, y) pairing, order, exactly-once '
+             'calls. Covers capacity 1-3 so that the hand-off queue wraps. Bounded-exhaustive, n <= 4.',
+        note='thread executor explored; for the process executor fifo_stream only sees futures and every completion order '
+             'is enumerated, the ProcessPoolExecutor wiring itself is not explored',
+        design_ref='DESIGN.md 4 C01'),
+    'C08': dict(
+        engine='schedex',
+        technique='stateless model checking: state invariant evaluated at every scheduling point of every explored schedule',
+        text='The look-ahead (pulled - received) and running-call counters of instrumented source / consumer / worker are '
+             'checked against capacity+3, buffer n+2 and concurrency at EVERY scheduling point of every schedule within '
+             'the delay bound (d=1 quick, d=2/3 thorough; environment completion choices count as deviations), for streams '
+             'longer than twice the capacity. The maxima actually reached are reported (they reach the bounds, so the '
+             'harness is not vacuous).',
+        note='bounds taken from the property statement; counters are sampled at scheduling points (line granularity of the '
+             'traced library functions)',
+        design_ref='DESIGN.md 4 C08'),
+    'C10': dict(
+        engine='schedex',
+        technique='stateless model checking with line-level preemption in Fork.__next__: exhaustive delay-bounded schedule enumeration x source failure positions',
+        text='Real tee() with 2-3 forks, window 2-3, sources of length 0,1,3,5 failing at every interesting position. '
+             'Fork.__next__ is traced line by line, all schedules with <= d deviations (2 forks: d=2 quick / 3 thorough; '
+             '3 forks: d=1 / 2). Oracle: identical element lists, identical ending (exhaustion or the source exception), '
+             'one pull per element, pull-ahead invariant at every point, no deadlock, no livelock of the timed-acquire loop.',
+        note='timers fire only when no thread can run (the 0.1 s timed acquisition is a polling loop); spinning beyond the '
+             'horizon is reported as a hang',
+        design_ref='DESIGN.md 4 C10'),
+})
+
 PENDING_REASON = 'check not built yet in this session (planned, see DESIGN.md section 4); not claimed until it runs'
 
 
